@@ -282,6 +282,18 @@ def run_history(c):
                         f.append(('unlock', 'wrong-passphrase-accepted', '%s: %r' % (where, wrong)))
                 except Exception:   # noqa
                     pass
+            elif op[0] == 'copy_inside':
+                # a copy taken while the key is unlocked is a key of its own: once the scope has ended it must not be a way around the passphrase
+                if pw is None:
+                    continue
+                try:
+                    with key.unlock(pw):
+                        dup = copy.copy(key)
+                        if op[1] % 2:
+                            raise Boom()
+                except Boom:
+                    pass
+                key = dup
             elif op[0] == 'export_import':
                 key = pgpy.PGPKey.from_blob(str(key) if op[1] % 2 else bytes(key))[0]
             elif op[0] == 'copy':
@@ -298,7 +310,7 @@ def run_history(c):
 def op_strategy():
     i = st.integers(0, 11)
     return st.one_of(st.tuples(st.just('protect'), i, i, i), st.tuples(st.just('protect'), i, i, i), st.tuples(st.just('unlock_sign')), st.tuples(st.just('unlock_raise')), st.tuples(st.just('protect_refused'), i),
-                     st.tuples(st.just('unlock_wrong'), i), st.tuples(st.just('nested')), st.tuples(st.just('export_import'), i), st.tuples(st.just('copy'))).map(list)
+                     st.tuples(st.just('unlock_wrong'), i), st.tuples(st.just('nested')), st.tuples(st.just('export_import'), i), st.tuples(st.just('copy')), st.tuples(st.just('copy_inside'), i)).map(list)
 
 
 def case_strategy():
@@ -332,7 +344,7 @@ def w_matrix(arg):
             i += 1
             if i % nparts != part:
                 continue
-            c = {'primary': PRIMARIES[i % len(PRIMARIES)], 'sub': SUBS[i % len(SUBS)], 'ops': [['protect', ci, hi, i % len(PWS)], ['unlock_sign']] + ([['protect_refused', i]] if i % 3 == 0 else []) + [['export_import', i]]}
+            c = {'primary': PRIMARIES[i % len(PRIMARIES)], 'sub': SUBS[i % len(SUBS)], 'ops': [['protect', ci, hi, i % len(PWS)], ['unlock_sign']] + ([['protect_refused', i]] if i % 3 == 0 else []) + ([['copy_inside', i], ['unlock_sign']] if i % 4 == 1 else []) + [['export_import', i]]}
             f, shape = run_history(c)
             rec.case(('own', CIPHERS[ci], HASHES[hi], c['primary']), True, ['own/cipher%d' % CIPHERS[ci], 'own/hash%d' % HASHES[hi]], {'cipher': CIPHERS[ci], 'hash': HASHES[hi], 'key': c['primary']})
             for clause, cause, det in f:
